@@ -1,6 +1,7 @@
 //! vacct: account-level monitors (C01 C02 C12 C13 C16 C18 C19 C20, C03 local part).
 mod c01;
 mod c02;
+mod c02merge;
 mod c12;
 mod c13;
 mod c16;
@@ -23,6 +24,7 @@ fn main() {
     match args.check.as_str() {
         "c01" => rt.block_on(c01::run(&args, &mut rep)),
         "c02" => rt.block_on(c02::run(&args, &mut rep)),
+        "c02merge" => rt.block_on(c02merge::run(&args, &mut rep)),
         "c12" => rt.block_on(c12::run(&args, &mut rep)),
         "c13" => rt.block_on(c13::run(&args, &mut rep)),
         "c16" => rt.block_on(c16::run(&args, &mut rep)),
